@@ -86,7 +86,7 @@ UNITS += [
 """),
     Unit(name="decide_one_pack", file=PR, kind="block", within="fn decide_packs(",
          anchor="match (pack.delete_mark, pi.used_blobs, pi.unused_blobs) {", block_end="@matching_brace",
-         block_sig="fn decide_one_pack(this: &mut VPlan, pack: &mut PrunePack, pi: PackInfo, status: StatusSet, too_young: bool, keep_uncacheable: bool, to_compress: bool, repack_all: bool, size_mismatch: bool, index_num: usize, pack_num: usize)",
+         block_sig="fn decide_one_pack(this: &mut VPlan, pack: &mut PrunePack, pi: PackInfo, status: StatusSet, too_young: bool, keep_uncacheable: bool, to_compress: bool, repack_all: bool, size_mismatch: bool, index_num: usize, pack_num: usize, keep_delete: DurationT)",
          block_tail="",
          functions=["commands::prune::PrunePlan::decide_packs (per-pack decision: the `match (delete_mark, used_blobs, unused_blobs)` statement)"],
          rewrites=[
@@ -94,7 +94,8 @@ UNITS += [
              Rw(r"(?m)^\s*self\.stats\.packs\.\w+ \+= 1;\n", "\n", regex=True, count=None, why="statistics counters removed (not part of the property)"),
              Rw(r"(?m)^\s*(_ = )?status\s*\.insert(_all)?\([^;]*\);\n", "\n", regex=True, count=None, why="informational status flags removed"),
              Rw(r"status\s*\n\s*\.insert_all\([^;]*\);", "", regex=True, count=None, why="informational status flags removed"),
-             Rw("self.time.saturating_sub(keep_delete).timestamp()\n                                        >= local_date_time", "vdelete_due(&this.delete_limit, &local_date_time)", why="jiff time arithmetic: uninterpreted 'keep-delete time has passed'"),
+             Rw(r"(?P<l>self\.time\.\w+\(keep_delete\)\.timestamp\(\))\s*>=\s*local_date_time", r"vts_ge(\g<l>, local_date_time)", regex=True, why="`>=` on jiff Timestamps -> stub over mathematical seconds (the arithmetic in front of it stays as written)"),
+             Rw("self.time.", "this.time.", count=None, why="statement-block unit: self -> parameter"),
              Rw("&mut self.stats", "&mut this.stats", count=None, why="statement-block unit: self -> parameter"),
              Rw("self.repack_candidates", "this.repack_candidates", count=None, why="statement-block unit: self -> parameter"),
          ],
@@ -114,10 +115,10 @@ UNITS += [
         // --- two-phase deletion ---
         /*@unused_unmarked_only_marked*/ !old(pack).delete_mark && pi.used_blobs == 0 ==> final(pack).to_do == (if too_young { PackToDo::Keep } else { PackToDo::MarkDelete }),
         /*@delete_only_after_keep_delete*/ final(pack).to_do == PackToDo::Delete ==> old(pack).delete_mark && pi.used_blobs == 0
-              && (old(pack).time matches Some(t) && delete_due(old(this).delete_limit, t)),
+              && (old(pack).time matches Some(t) && delete_due(old(this).time, keep_delete, t)),
         /*@marked_unused_not_due_is_kept*/ old(pack).delete_mark && pi.used_blobs == 0 ==> (match old(pack).time {
               None => final(pack).to_do == PackToDo::KeepMarkedAndCorrect,
-              Some(t) => final(pack).to_do == (if delete_due(old(this).delete_limit, t) { PackToDo::Delete } else { PackToDo::KeepMarked }),
+              Some(t) => final(pack).to_do == (if delete_due(old(this).time, keep_delete, t) { PackToDo::Delete } else { PackToDo::KeepMarked }),
         }),
         /*@young_pack_kept*/ too_young && !old(pack).delete_mark ==> final(pack).to_do == PackToDo::Keep,
 """),
@@ -261,6 +262,7 @@ COPY_COMMON = [
     Rw("for (blob, blob_id) in pack_blobs.locations.blobs {", "let vpack = pack_blobs.pack_id; for e in it: pack_blobs.locations.blobs.v.iter() { let (blob, blob_id) = (e.0, e.1);", why="SmallVec by-value iteration -> by reference; Verus for-loop syntax"),
     R_TRYFROM, R_MAPERR,
     Rw("p.inc(blob.length.into());", "p.inc(blob.length as u64);", why="u32 -> u64"),
+    Rw("NonZeroU32::new(", "vnonzero_new(", count=None, optional=True, why="NonZeroU32::new (NonZeroU32 modelled as u32): Some(x) iff x != 0"),
 ]
 UNITS += [
     Unit(name="CopyPackBlobs", file=PKF, kind="type", anchor="pub struct CopyPackBlobs {", rewrites=[R_ATTRS]),
